@@ -10,6 +10,8 @@ import OFV.Spec.C14
 import Mathlib.Data.List.Nodup
 import Mathlib.Data.List.Range
 import Mathlib.Tactic.SplitIfs
+import Mathlib.Tactic.Linarith
+import Mathlib.Data.List.Perm.Basic
 
 namespace OFV.C14
 open OFV.Model.C14
@@ -419,4 +421,93 @@ theorem swapNetwork_call_adjacent (n : Nat) (offset : Bool) (e : SwapCall)
   obtain ⟨h1, h2, _⟩ := entry_ok n offset.toNat t m ht hm
   exact ⟨h1, h2⟩
 
+theorem entry_ascending (n off t m : Nat) (ht : t < n) (hm : m < cnt n off t) :
+    (entry n off t m).1 < (entry n off t m).2.1 := by
+  rw [entry_modes]
+  unfold cnt at hm
+  have hi : (t + off) % 2 + 2 * m + 1 < n := by omega
+  generalize (t + off) % 2 + 2 * m = i at *
+  unfold modeL modeR
+  simp only
+  split_ifs <;> omega
+
+theorem swapNetwork_call_ascending (n : Nat) (offset : Bool) (e : SwapCall)
+    (he : e ∈ (swapNetwork n offset).2) : e.1 < e.2.1 := by
+  rw [swapNetwork_closed] at he
+  obtain ⟨t, ht, m, hm, rfl⟩ := mem_logUpTo n offset.toNat n e he
+  exact entry_ascending n offset.toNat t m ht hm
 end OFV.C14
+
+/-! ### all pairs (shared with C15) -/
+
+namespace OFV.C15
+
+open OFV.C14 OFV.Model.C14 in
+/-- all unordered pairs `p < q < n` -/
+def allPairs (n : Nat) : List (Nat × Nat) :=
+  (List.range n).flatMap fun q => (List.range q).map fun p => (p, q)
+
+theorem mem_allPairs (n : Nat) (k : Nat × Nat) : k ∈ allPairs n ↔ k.1 < k.2 ∧ k.2 < n := by
+  unfold allPairs
+  simp only [List.mem_flatMap, List.mem_range, List.mem_map]
+  constructor
+  · rintro ⟨q, hq, p, hp, rfl⟩; exact ⟨hp, hq⟩
+  · rintro ⟨h1, h2⟩; exact ⟨k.2, h2, k.1, h1, rfl⟩
+
+theorem allPairs_nodup (n : Nat) : (allPairs n).Nodup := by
+  unfold allPairs
+  rw [List.nodup_flatMap]
+  constructor
+  · intro q _
+    apply List.Nodup.map_on _ List.nodup_range
+    intro a _ b _ hab
+    exact (Prod.mk.injEq _ _ _ _ ▸ hab).1
+  · apply List.Pairwise.imp_of_mem _ List.pairwise_lt_range
+    intro q q' _ _ hlt
+    show List.Disjoint _ _
+    intro k hk hk'
+    obtain ⟨a, _, rfl⟩ := List.mem_map.mp hk
+    obtain ⟨b, _, hb⟩ := List.mem_map.mp hk'
+    have := (Prod.mk.injEq _ _ _ _ ▸ hb).2
+    omega
+
+open OFV.C14 OFV.Model.C14 in
+theorem keys_perm (n : Nat) (offset : Bool) :
+    ((swapNetwork n offset).2.map key).Perm (allPairs n) := by
+  have hoff : offset.toNat ≤ 1 := by cases offset <;> simp
+  rw [swapNetwork_closed]
+  rw [List.perm_ext_iff_of_nodup (keys_nodup n offset.toNat) (allPairs_nodup n)]
+  intro k
+  rw [mem_allPairs]
+  constructor
+  · intro hk
+    obtain ⟨e, he, rfl⟩ := List.mem_map.mp hk
+    obtain ⟨t, ht, m, hm, rfl⟩ := mem_logUpTo n offset.toNat n e he
+    obtain ⟨_, _, h3, h4, h5⟩ := entry_ok n offset.toNat t m ht hm
+    unfold key
+    simp only
+    omega
+  · rintro ⟨h1, h2⟩
+    exact key_mem n offset.toNat k.1 k.2 hoff h1 h2
+
+open OFV.C14 OFV.Model.C14 in
+theorem allPairs_length (n : Nat) : (allPairs n).length * 2 = n * (n - 1) := by
+  unfold allPairs
+  induction n with
+  | zero => simp
+  | succ n ih =>
+    rw [List.range_succ, List.flatMap_append, List.length_append]
+    simp only [List.flatMap_cons, List.flatMap_nil, List.append_nil, List.length_map, List.length_range]
+    rcases n with _ | n
+    · simp
+    · simp only [Nat.add_sub_cancel] at ih ⊢
+      nlinarith [ih]
+
+open OFV.C14 OFV.Model.C14 in
+theorem swapNetwork_call_count (n : Nat) (offset : Bool) :
+    (swapNetwork n offset).2.length * 2 = n * (n - 1) := by
+  have := (keys_perm n offset).length_eq
+  rw [List.length_map] at this
+  rw [this, allPairs_length]
+
+end OFV.C15
